@@ -106,8 +106,9 @@ func newMeasureWorld(srv *server, cfg config, group string, res *vlib.Result) *m
 	return &measureWorld{srv: srv, cfg: cfg, group: group, res: res, seed: vlib.Seed(), base: base, pids: map[int]uint64{}, seriesOf: map[int]int{}, tOf: map[int]int{}}
 }
 
-// versionMaps are monotone embeddings of the model's versions 1..4 into int64 (signs and extremes included).
-var versionMaps = [][]int64{{0, 1, 2, 3, 4}, {0, 64, 128, 192, 256}, {0, -7, -1, 5, 9}, {0, math.MinInt64, -1, 0, math.MaxInt64}, {0, -4, -3, -2, -1},
+// versionMaps are monotone embeddings of the model's versions 1..4 into int64 (signs and extremes included; never 0:
+// a zero version means "unset" and the server substitutes the message id).
+var versionMaps = [][]int64{{0, 1, 2, 3, 4}, {0, 64, 128, 192, 256}, {0, -7, -1, 5, 9}, {0, math.MinInt64, -1, 1, math.MaxInt64}, {0, -4, -3, -2, -1},
 	{0, 1700000000000000000, 1700000000000000001, 1700000000000000002, math.MaxInt64}}
 
 func (m *measureWorld) version(v int) int64 {
